@@ -9,7 +9,7 @@ from .. import apilevel as A, docx_builder as B, gen_xml
 from ..gen_xml import xml_json
 
 MAPS = [None, "p.Quote => blockquote > p:fresh\ncomment-reference => sup", "r.Strong => strong\nb => b"]
-REWRITES = ["strict", "rename_prefixes", "default_ns", "declaration", "encoding", "bom", "cdata", "charrefs", "comments",
+REWRITES = ["strict", "rename_prefixes", "default_ns", "nested_default_ns", "declaration", "encoding", "bom", "cdata", "charrefs", "comments",
             "pis", "whitespace", "zip_order", "compression", "rename_parts", "noise"]
 
 
@@ -67,6 +67,16 @@ def run(ctx):
         for i in range(n):
             g = gen_xml.XGen(rng, anomalies=0.2, optional_absent=0.1, hostile=0.35)
             pkg = g.package()
+            if rng.random() < 0.35:
+                # both checkbox kinds in one part: the same local names in two namespaces (w:checked / wordml:checked)
+                from mammoth.docx.xmlparser import element as X, text as XT
+                def cbs(v1, v2):
+                    return X("w:p", {}, [
+                        X("w:r", {}, [X("w:fldChar", {"w:fldCharType": "begin"}, [X("w:ffData", {}, [X("w:checkBox", {}, [X("w:checked", {"w:val": v1})])])])]),
+                        X("w:r", {}, [X("w:instrText", {}, [XT(" FORMCHECKBOX ")])]),
+                        X("w:r", {}, [X("w:fldChar", {"w:fldCharType": "end"})]),
+                        X("w:sdt", {}, [X("w:sdtPr", {}, [X("wordml:checkbox", {}, [X("wordml:checked", {"wordml:val": v2})])]), X("w:sdtContent", {}, [])])])
+                pkg.body.insert(rng.randint(0, len(pkg.body)), cbs(rng.choice(["0", "1"]), rng.choice(["0", "1"])))
             if rng.random() < 0.3:
                 pkg.embedded_style_map = "p.Normal => p.normal\nr.Emph => em"
             opts = {"style_map": rng.choice(MAPS), "include_default_style_map": True, "include_embedded_style_map": True,
